@@ -17,6 +17,30 @@ from common import enc_text
 STR = ['', 'x', 'a b', 'q"uote', 'back\\slash', 'two\nlines', 'é', 'l1\nl2\nl3']
 
 
+RELEX = {'EscapedString', 'BlockComment', 'InlineComment', 'Date', 'Number', 'Account', 'Currency', 'Tag', 'Link', 'MetaKey', 'Bool',
+         'TransactionFlag', 'PostingFlag'}
+
+
+def readback(p, t, attr, val, pre_attrs, new):
+    """None, or what is wrong with the text the assignment produced (see the call site)."""
+    try:
+        if attr in ('value', 'indent') and getattr(t, attr) != val:
+            return f'{attr} reads back {getattr(t, attr)!r} after assigning {val!r}'
+        if isinstance(t, models.BlockComment) and attr == 'value' and t.indent != pre_attrs.get('indent'):
+            return f'assigning value changed indent {pre_attrs.get("indent")!r} -> {t.indent!r}'
+        if isinstance(t, models.BlockComment) and attr == 'indent' and t.value != pre_attrs.get('value'):
+            return f'assigning indent changed value {pre_attrs.get("value")!r} -> {t.value!r}'
+        if attr == 'raw_text' and new != val:
+            return f'raw_text reads back {new!r} after assigning {val!r}'
+        if hasattr(t, 'value') and type(t).__name__ in RELEX:
+            again = p.parse_token(new, type(t))
+            if again.value != t.value or (isinstance(t, models.BlockComment) and again.indent != t.indent):
+                return f'raw text {new!r} re-lexes to value {again.value!r}, the token says {t.value!r}'
+    except Exception as e:
+        return f'reading back / re-lexing {new!r} raised {type(e).__name__}: {str(e)[:80]}'
+    return None
+
+
 def domain_assignments(rng, t):
     """Candidate (attr, python value) assignments for token t (all inside the type's domain)."""
     n = type(t).__name__
@@ -25,7 +49,7 @@ def domain_assignments(rng, t):
         out += [('value', rng.choice(STR))]
         out += [('raw_text', models.EscapedString.from_value(rng.choice(STR)).raw_text)]
     elif n == 'BlockComment':
-        out += [('value', rng.choice(['c', 'a\nb', '', 'x\n\ny', 'l1\nl2\nl3'])), ('indent', rng.choice(['', '  ', '\t', '    ']))]
+        out += [('value', rng.choice(['c', 'a\nb', '', 'x\n\ny', 'l1\nl2\nl3', 'p\r\n\r\nq', 'x\r\r\n\r\r\ny', 'u\r\r\nv'])), ('indent', rng.choice(['', '  ', '\t', '    ']))]
         out += [('raw_text', models.BlockComment.from_value(rng.choice(['z', 'p\nq']), indent=rng.choice(['', '  '])).raw_text)]
     elif n == 'InlineComment':
         out += [('value', rng.choice(['', 'n', 'a;b', 'x  y']))]
@@ -112,12 +136,19 @@ def run(ctx, ndocs, nassign, lfs, prefix, with_model=True, judge=('C02', 'C08'))
                 old = t.raw_text
                 others = [x.raw_text for x in toks]
                 rep['assignments'].append({'tok': vid[id(t)], 'cls': type(t).__name__, 'attr': attr, 'val': repr(val)})
+                pre_attrs = {'indent': t.indent, 'value': t.value} if isinstance(t, models.BlockComment) else {}
                 try:
                     setattr(t, attr, val)
                 except Exception as e:
                     bad = (f'{prefix}:in-domain-assignment-raises:{type(t).__name__}.{attr}', f'{type(e).__name__}: {e}')
                     break
                 new = t.raw_text
+                # "the token's new raw text" is the text that carries what was assigned: the assigned attribute reads back, the
+                # other attributes of a block comment stay, and the text re-lexes to the same value
+                rb = readback(p, t, attr, val, pre_attrs, new)
+                if rb:
+                    bad = (f'C02:assigned-text-does-not-carry-the-value:{type(t).__name__}.{attr}', rb)
+                    break
                 ctx.case((type(t).__name__, attr, '\n' in old, '\n' in new, len(store._blocks) > 1, lf))
                 ctx.count(f'assign:{type(t).__name__}.{attr}')
                 now = list(store)
@@ -194,7 +225,10 @@ def replay(rep):
             before_text = ''.join(x.raw_text for x in toks)
             off = sum(len(x.raw_text) for x in toks[:a['tok'] - 1])
             old = t.raw_text
+            pre_attrs = {'indent': t.indent, 'value': t.value} if isinstance(t, models.BlockComment) else {}
             setattr(t, a['attr'], val)
+            if readback(p, t, a['attr'], val, pre_attrs, t.raw_text):
+                bad.append(('C02:assigned-text-does-not-carry-the-value', ''))
             now = list(store)
             if len(now) != len(toks) or any(x is not y for x, y in zip(now, toks)):
                 bad.append(('C02:identity-or-order-changed', ''))
